@@ -362,3 +362,24 @@ def propagated_tolerance(A_true, A_obs, x_true, b_top=None, db=None):
         extra = float(np.max(np.abs(P[:n_c, :A_true.shape[0]]) @ np.abs(db)))
     rel = float(np.linalg.norm(A_obs - A_true, 2) / s[-1]) if s[-1] > 0 else math.inf
     return 3.0 * float(max(e1, e2)) + 3.0 * extra + 1e-6, rel
+
+
+def interface_graph_connected(L):
+    """True iff the graph whose edges are the rows of a +-1 incidence matrix L (two non-zeros per row) links all
+    columns that have a non-zero into one connected group (the premise of the pressure solution clause)."""
+    L = np.asarray(L)
+    cols = [k for k in range(L.shape[1]) if np.any(L[:, k] != 0)]
+    if not cols:
+        return False
+    parent = {k: k for k in cols}
+
+    def find(a):
+        while parent[a] != a:
+            a = parent[a]
+        return a
+
+    for row in L:
+        nz = np.nonzero(row)[0]
+        if len(nz) == 2:
+            parent[find(int(nz[0]))] = find(int(nz[1]))
+    return len({find(k) for k in cols}) == 1
